@@ -263,12 +263,15 @@ def run(case):
         txt += ' [nodes carry 3D positions, mode %d]' % mode
     np.random.seed(case['sub'] % (2 ** 31))
     align = [None, None, np.array([1.0, 0.0]), np.array([0.0, 1.0]), np.array([1.0, 1.0])][case['sub'] % 5]
+    positional = case['sub'] % 3 == 1       # the bond length (and the axis) handed over by position instead of by keyword
     try:
         if align is None:
-            vespr_layout(g, default_bond=case['bond'])
+            vespr_layout(g, case['bond']) if positional else vespr_layout(g, default_bond=case['bond'])
         else:
-            vespr_layout(g, default_bond=case['bond'], align_with=align)
+            vespr_layout(g, case['bond'], align) if positional else vespr_layout(g, default_bond=case['bond'], align_with=align)
             txt += f' align_with={align.tolist()}'
+        if positional:
+            txt += ' [arguments by position]'
     except Exception as err:
         viol.append(V('c19.exception.' + type(err).__name__, f'{txt} bond={case["bond"]}: vespr_layout raised {type(err).__name__}: {err}'))
     for clause, msg in RECORDS:
